@@ -213,8 +213,9 @@ def run_replay(ctx):
 
 def pipeline(ctx, pid, extra_classes=()):
     """extract -> prove -> harness (or replay) -> model comparison -> monitors of this property"""
-    core.run_extract(ctx, ["processor_consts", "quorum_go", "vaa_consts"] if False else ["processor_consts", "quorum_go"])
-    core.coq_prove(ctx, pid, extra_targets=["lib/ProcWire.vo"])
+    core.run_extract(ctx, (["processor_consts", "quorum_go", "vaa_consts"] if False else ["processor_consts", "quorum_go"])
+                     + (["wiring"] if pid in ("C01", "C02") else []))
+    core.coq_prove(ctx, pid, extra_targets=["lib/ProcWire.vo"] + (["lib/SysWire.vo"] if pid in ("C01", "C02") else []))
     if ctx.tier == "thorough":
         core.coq_thorough_audit(ctx, pid)
     rows = run_replay(ctx) if ctx.replay else run_harness(ctx)
@@ -261,6 +262,9 @@ def pipeline(ctx, pid, extra_classes=()):
                         ctx.problem("monitor", line, "observed on the real Run loop, run %s (%s), seed %d" % (r["id"], r.get("shape"), ctx.seed),
                                     concrete=True, replay={"why": line, "run_loop_run": r["id"], "seed": ctx.seed, "rerun": "VERIF_SEED=%d ./check %s" % (ctx.seed, pid)}, key=k)
     ctx.cov["monitor_lines_for_this_property"] = nmon
+    # the network of real processors against model/System.v (C01 / C02 own the network-level statements)
+    if not ctx.replay and pid in ("C01", "C02"):
+        net_check(ctx, pid, extra_classes)
     # model vs implementation, step by step
     bad = compare_with_model(ctx, rows, "cases_" + pid)
     if bad is None:
@@ -274,6 +278,136 @@ def pipeline(ctx, pid, extra_classes=()):
                     "op %s ; implementation outputs %s" % (json.dumps(h["ops"][step])[:300], h["steps"][step]["outs"] if step < len(h["steps"]) else "?"),
                     concrete=False, replay=replay_obj(h, "model/implementation divergence at step %d" % step, upto=step))
     return rows
+
+
+# ---------------------------------------------------------------- the network of processors (system-level composition, model/System.v)
+NET_HDR = HDR.replace("model.Processor lib.ProcWire.", "model.Processor model.System lib.ProcWire lib.SysWire.")
+
+
+def genv(o):
+    k = o["k"]
+    t = gop(o)
+    for a, b in (("SetGS ", "ESetGS "), ("SetClock ", "EClock "), ("LocalMsg ", "EMsg "), ("Inject ", "EInject ")):
+        if t.startswith(a):
+            return b + t[len(a):]
+    if k == "cleanup":
+        return "ECleanup"
+    raise ValueError("not an environment op: " + k)
+
+
+def ggossip(o):
+    if o["k"] == "obs":
+        return "GObs {| o_addr := %s; o_hash := %s; o_sig := %s; o_tx := %s |}" % (B(o.get("addr")), B(o.get("hash")), B(o.get("sig")), B(o.get("tx")))
+    if o["k"] == "inbound":
+        return "GVaa %s" % B(o.get("bytes"))
+    raise ValueError("not a gossip item: " + o["k"])
+
+
+def gnetop(x):
+    t, i, o = x["t"], x["i"], x["op"]
+    if t == "env":
+        return "WEnv %d (%s)" % (i, genv(o))
+    if t == "dlv":
+        return "WDeliver %d (%s)" % (i, ggossip(o))
+    if t == "adv":
+        return "WAdv %d (%s)" % (i, ggossip(o))
+    if t == "loop":
+        return "WLoop %d %d" % (i, o.get("n", 0))
+    raise ValueError(t)
+
+
+def gnet(h):
+    kc = core.glist("(%s, %s)" % (B(a), B(b)) for a, b in h["keccak"])
+    sg = core.glist(core.glist("(%s, %s)" % (B(a), B(b)) for a, b in t) for t in h["signs"])
+    rc = core.glist("(%s, %s, %s)" % (B(a), B(b), "Some %s" % B(c) if c else "None") for a, b, c in h["rec"])
+    ops = core.glist(gnetop(x) for x in h["ops"])
+    ex = core.glist("(%d, %d, %d)" % (s["oh"], s["sh"], s["ne"]) for s in h["steps"])
+    return ("{| nh_n := %d; nh_owns := %s; nh_gov_chain := %d; nh_gov_addr := %s; nh_keccak := %s; nh_signs := %s; nh_rec := %s; nh_ops := %s; nh_expect := %s |}"
+            % (h["n"], core.glist(B(a) for a in h["owns"]), h["gov_chain"], B(h["gov_addr"]), kc, sg, rc, ops, ex))
+
+
+def norm_net(h):
+    for k in ("ops", "steps", "mon", "keccak", "rec", "signs"):
+        if h.get(k) is None:
+            h[k] = []
+    h["signs"] = [t or [] for t in h["signs"]]
+    for st in h["steps"]:
+        if st.get("outs") is None:
+            st["outs"] = []
+    return h
+
+
+def net_weight(h):
+    return sum(len(json.dumps(x["op"])) for x in h["ops"]) // 2 + 60 * len(h["rec"]) + sum(len(a) for a, _ in h["keccak"]) // 2
+
+
+def net_check(ctx, pid, extra_classes=()):
+    """3-5 real processors in one process, the test plays the network; monitors of this property + comparison with model/System.v"""
+    rc, out, trace = core.harness_pkg(ctx, "processor", "^TestVerifNet$", timeout=3000)
+    rows = [norm_net(r) for r in core.read_jsonl(trace) if r.get("k") == "net"]
+    if rc != 0 or not rows:
+        ctx.problem("machinery", "go harness processor (network)", out[-1200:])
+        return
+    kinds = {}
+    for h in rows:
+        for x in h["ops"]:
+            k = x["t"] + ":" + x["op"]["k"] + (":" + x["op"]["note"] if x["op"].get("note") else "")
+            kinds[k] = kinds.get(k, 0) + 1
+    ctx.cov["network"] = {"rounds": len(rows), "nodes_hist": {str(n): sum(1 for h in rows if h["n"] == n) for n in sorted({h["n"] for h in rows})},
+                          "network_steps": sum(len(h["ops"]) for h in rows), "fair_rounds": sum(1 for h in rows if h.get("fair")),
+                          "publications": sum(h.get("publications", 0) for h in rows), "peer_stores_checked": sum(h.get("peer_stores", 0) for h in rows),
+                          "step_kind_hist": kinds}
+    seen = set()
+    nmon = 0
+    for h in rows:
+        for line in h["mon"]:
+            base = line.split(" [network node")[0]
+            c = mon_class(base)
+            if c is None:
+                ctx.problem("machinery", line, "network round %s (%s)" % (h["id"], h.get("shape")))
+                continue
+            if c != pid and c not in extra_classes:
+                continue
+            nmon += 1
+            k = mon_key(pid, "net " + base)
+            if k in seen:
+                continue
+            seen.add(k)
+            ctx.problem("monitor", base + " (network of real processors)", "network round %s (%s), seed %d, last steps %s"
+                        % (h["id"], h.get("shape"), ctx.seed, [(x["t"], x["i"], x["op"]["k"]) for x in h["ops"]][-10:]),
+                        concrete=True, replay={"why": line, "network_round": h["id"], "shape": h.get("shape"), "seed": ctx.seed, "owns": h["owns"],
+                                               "ops": h["ops"], "rerun": "VERIF_SEED=%d ./check %s" % (ctx.seed, pid)}, key=k)
+    ctx.cov["network"]["monitor_lines_for_this_property"] = nmon
+    # the System model replays every round inside Coq
+    nsh = 14
+    idx = sorted(range(len(rows)), key=lambda i: -net_weight(rows[i]))
+    bins = [[] for _ in range(min(nsh, len(rows)))]
+    load = [0] * len(bins)
+    for i in idx:
+        j = load.index(min(load))
+        bins[j].append(i)
+        load[j] += net_weight(rows[i]) + 200
+    bins = [sorted(b) for b in bins if b]
+    texts = [NET_HDR + "Definition cases : list nhist := %s.\nDefinition M := Eval vm_compute in map check_net cases.\nPrint M.\n"
+             % core.glist(gnet(rows[i]) for i in b) for b in bins]
+    res = core.coq_eval_many(ctx, "cases_%s_net" % pid, texts, timeout=1500)
+    bad = []
+    for b, (ok, o) in zip(bins, res):
+        m = core.parse_print(o, "M")
+        vals = core.zlist(m) if (ok and m is not None) else None
+        if vals is None or len(vals) != len(b):
+            ctx.problem("correspondence", "System model evaluation (network)", o[-800:])
+            return
+        bad += [(i, v) for i, v in zip(b, vals) if v >= 0]
+    ctx.cov["network"]["rounds_compared_with_system_model"] = len(rows)
+    ctx.cov["network"]["model_mismatches"] = len(bad)
+    for i, step in sorted(bad)[:3]:
+        h = rows[i]
+        x = h["ops"][step] if step < len(h["ops"]) else None
+        ctx.problem("correspondence", "System model differs from the network of real processors in round %s (%s) at network step %d" % (h["id"], h.get("shape"), step),
+                    "step %s ; implementation outputs %s" % (json.dumps(x)[:300], h["steps"][step]["outs"] if step < len(h["steps"]) else "?"),
+                    concrete=False, replay={"why": "network model/implementation divergence at step %d" % step, "network_round": h["id"], "seed": ctx.seed,
+                                            "owns": h["owns"], "ops": h["ops"][:step + 1]})
 
 
 COMMON_ASSUMPTIONS = [
